@@ -590,7 +590,13 @@ class ElementList(Aggregate):
         assert len(self.listaggregates) == 1
         converter = list(self.listaggregates.values())[0]
         for member in args:
-            self.append(converter.convert(member))
+            value = converter.convert(member)
+            if value is None:
+                # The converter passes None/"" through for optional elements,
+                # but "no value" is not a list member
+                clsnm = self.__class__.__name__
+                raise OFXSpecError(f"{clsnm} can't contain empty list element {member!r}")
+            self.append(value)
 
     def _listAppend(self, root: ET.Element, member) -> None:
         assert len(self.listaggregates) == 1
